@@ -7,6 +7,7 @@ import I3.Exec.Field
 import I3.Gen.Consts
 import I3.Gen.FFLimbs
 import I3.Gen.FFGLimbs
+import I3.Gen.FFAsm
 namespace I3.Model.Limbs
 open I3
 
@@ -22,71 +23,119 @@ def show1 (r : Nat) : String := s!"[{r}]"
 def val4 (l : List Nat) : Nat := l.foldr (fun x acc => x + W * acc) 0
 def limbs4 (v : Nat) : Nat × Nat × Nat × Nat := (v % W, v / W % W, v / W / W % W, v / W / W / W % W)
 
-/-- route suffix → which aliasing variant of the translated kernel is evaluated. -/
+/-- Route of a raw op:  `generic[-zx|-zy]` = the portable kernel through the hooks (T2 translation);
+    `api|zx|zy:<backend>` = the public API on this build, i.e. on amd64 the ASSEMBLY routine (T3
+    translation), with `<backend>` ∈ adx1 (run-time dispatch, ADX present), adx0 (dispatch, no ADX: the
+    assembly stub tail-calls the portable kernel), adxonly (build tag amd64_adx).  The aliasing part
+    selects the variant of the translation in which the aliased arguments share their cells. -/
 def ffRaw (opFull : String) (args : List String) : Option String := do
   let parts := opFull.splitOn "@"
   let op := parts.headD ""
-  let pat := (parts.getD 1 "")
-  let pat := if pat.startsWith "generic-" then (pat.drop 8).toString else if pat = "generic" then "" else pat
+  let route := (parts.getD 1 "")
+  let rparts := route.splitOn ":"
+  let r0 := rparts.headD ""
+  let backend := rparts.getD 1 ""
+  let generic := r0.startsWith "generic"
+  let pat := if r0.startsWith "generic-" then (r0.drop 8).toString else if r0 = "generic" || r0 = "api" then "" else r0
+  let asm := !generic && backend != "" && backend != "portable"
+  let adx : Nat := if backend = "adx1" then 1 else 0
   match op, args with
   | "mul", [x, y] =>
     match (← parseLimbs? x), (← parseLimbs? y) with
     | [x0,x1,x2,x3], [y0,y1,y2,y3] =>
-      let r := match pat with
-        | "zx" => Gen.FF.mulGeneric_zx x0 x1 x2 x3 y0 y1 y2 y3
-        | "zy" => Gen.FF.mulGeneric_zy y0 y1 y2 y3 x0 x1 x2 x3
-        | _ => Gen.FF.mulGeneric 0 0 0 0 x0 x1 x2 x3 y0 y1 y2 y3
+      let r :=
+        if asm && backend = "adxonly" then
+          match pat with
+          | "zx" => Gen.FFAsm.mul_adxonly_zx x0 x1 x2 x3 y0 y1 y2 y3
+          | "zy" => Gen.FFAsm.mul_adxonly_zy y0 y1 y2 y3 x0 x1 x2 x3
+          | _ => Gen.FFAsm.mul_adxonly 0 0 0 0 x0 x1 x2 x3 y0 y1 y2 y3
+        else if asm then
+          match pat with
+          | "zx" => Gen.FFAsm.mul_zx adx x0 x1 x2 x3 y0 y1 y2 y3
+          | "zy" => Gen.FFAsm.mul_zy adx y0 y1 y2 y3 x0 x1 x2 x3
+          | _ => Gen.FFAsm.mul adx 0 0 0 0 x0 x1 x2 x3 y0 y1 y2 y3
+        else
+          match pat with
+          | "zx" => Gen.FF.mulGeneric_zx x0 x1 x2 x3 y0 y1 y2 y3
+          | "zy" => Gen.FF.mulGeneric_zy y0 y1 y2 y3 x0 x1 x2 x3
+          | _ => Gen.FF.mulGeneric 0 0 0 0 x0 x1 x2 x3 y0 y1 y2 y3
       pure (show4 r)
     | _, _ => none
   | "square", [x] =>
     match (← parseLimbs? x) with
     | [x0,x1,x2,x3] =>
-      let r := match pat with
-        | "zx" => Gen.FF.mulGeneric_zxy x0 x1 x2 x3
-        | _ => Gen.FF.mulGeneric_xy 0 0 0 0 x0 x1 x2 x3
+      let r :=
+        if asm && backend = "adxonly" then
+          match pat with
+          | "zx" => Gen.FFAsm.mul_adxonly_zxy x0 x1 x2 x3
+          | _ => Gen.FFAsm.mul_adxonly_xy 0 0 0 0 x0 x1 x2 x3
+        else if asm then
+          match pat with
+          | "zx" => Gen.FFAsm.mul_zxy adx x0 x1 x2 x3
+          | _ => Gen.FFAsm.mul_xy adx 0 0 0 0 x0 x1 x2 x3
+        else
+          match pat with
+          | "zx" => Gen.FF.mulGeneric_zxy x0 x1 x2 x3
+          | _ => Gen.FF.mulGeneric_xy 0 0 0 0 x0 x1 x2 x3
       pure (show4 r)
     | _ => none
   | "add", [x, y] =>
     match (← parseLimbs? x), (← parseLimbs? y) with
     | [x0,x1,x2,x3], [y0,y1,y2,y3] =>
-      let r := match pat with
-        | "zx" => Gen.FF.addGeneric_zx x0 x1 x2 x3 y0 y1 y2 y3
-        | "zy" => Gen.FF.addGeneric_zy y0 y1 y2 y3 x0 x1 x2 x3
-        | _ => Gen.FF.addGeneric 0 0 0 0 x0 x1 x2 x3 y0 y1 y2 y3
+      let r :=
+        if asm then
+          match pat with
+          | "zx" => Gen.FFAsm.add_zx x0 x1 x2 x3 y0 y1 y2 y3
+          | "zy" => Gen.FFAsm.add_zy y0 y1 y2 y3 x0 x1 x2 x3
+          | _ => Gen.FFAsm.add 0 0 0 0 x0 x1 x2 x3 y0 y1 y2 y3
+        else
+          match pat with
+          | "zx" => Gen.FF.addGeneric_zx x0 x1 x2 x3 y0 y1 y2 y3
+          | "zy" => Gen.FF.addGeneric_zy y0 y1 y2 y3 x0 x1 x2 x3
+          | _ => Gen.FF.addGeneric 0 0 0 0 x0 x1 x2 x3 y0 y1 y2 y3
       pure (show4 r)
     | _, _ => none
   | "sub", [x, y] =>
     match (← parseLimbs? x), (← parseLimbs? y) with
     | [x0,x1,x2,x3], [y0,y1,y2,y3] =>
-      let r := match pat with
-        | "zx" => Gen.FF.subGeneric_zx x0 x1 x2 x3 y0 y1 y2 y3
-        | "zy" => Gen.FF.subGeneric_zy y0 y1 y2 y3 x0 x1 x2 x3
-        | _ => Gen.FF.subGeneric 0 0 0 0 x0 x1 x2 x3 y0 y1 y2 y3
+      let r :=
+        if asm then
+          match pat with
+          | "zx" => Gen.FFAsm.sub_zx x0 x1 x2 x3 y0 y1 y2 y3
+          | "zy" => Gen.FFAsm.sub_zy y0 y1 y2 y3 x0 x1 x2 x3
+          | _ => Gen.FFAsm.sub 0 0 0 0 x0 x1 x2 x3 y0 y1 y2 y3
+        else
+          match pat with
+          | "zx" => Gen.FF.subGeneric_zx x0 x1 x2 x3 y0 y1 y2 y3
+          | "zy" => Gen.FF.subGeneric_zy y0 y1 y2 y3 x0 x1 x2 x3
+          | _ => Gen.FF.subGeneric 0 0 0 0 x0 x1 x2 x3 y0 y1 y2 y3
       pure (show4 r)
     | _, _ => none
   | "double", [x] =>
     match (← parseLimbs? x) with
     | [x0,x1,x2,x3] =>
-      let r := match pat with
-        | "zx" => Gen.FF.doubleGeneric_zx x0 x1 x2 x3
-        | _ => Gen.FF.doubleGeneric 0 0 0 0 x0 x1 x2 x3
+      let r :=
+        if asm then (match pat with | "zx" => Gen.FFAsm.double_zx x0 x1 x2 x3 | _ => Gen.FFAsm.double 0 0 0 0 x0 x1 x2 x3)
+        else (match pat with | "zx" => Gen.FF.doubleGeneric_zx x0 x1 x2 x3 | _ => Gen.FF.doubleGeneric 0 0 0 0 x0 x1 x2 x3)
       pure (show4 r)
     | _ => none
   | "neg", [x] =>
     match (← parseLimbs? x) with
     | [x0,x1,x2,x3] =>
-      let r := match pat with
-        | "zx" => Gen.FF.negGeneric_zx x0 x1 x2 x3
-        | _ => Gen.FF.negGeneric 0 0 0 0 x0 x1 x2 x3
+      let r :=
+        if asm then (match pat with | "zx" => Gen.FFAsm.neg_zx x0 x1 x2 x3 | _ => Gen.FFAsm.neg 0 0 0 0 x0 x1 x2 x3)
+        else (match pat with | "zx" => Gen.FF.negGeneric_zx x0 x1 x2 x3 | _ => Gen.FF.negGeneric 0 0 0 0 x0 x1 x2 x3)
       pure (show4 r)
     | _ => none
   | "frommont", [x] =>
     match (← parseLimbs? x) with
-    | [x0,x1,x2,x3] => pure (show4 (Gen.FF.fromMontGeneric x0 x1 x2 x3))
+    | [x0,x1,x2,x3] =>
+      pure (show4 (if asm && backend = "adxonly" then Gen.FFAsm.fromMont_adxonly x0 x1 x2 x3
+                   else if asm then Gen.FFAsm.fromMont adx x0 x1 x2 x3 else Gen.FF.fromMontGeneric x0 x1 x2 x3))
     | _ => none
   | "reduce", [x] =>
     match (← parseLimbs? x) with
-    | [x0,x1,x2,x3] => pure (show4 (Gen.FF.reduceGeneric x0 x1 x2 x3))
+    | [x0,x1,x2,x3] => pure (show4 (if asm then Gen.FFAsm.reduce x0 x1 x2 x3 else Gen.FF.reduceGeneric x0 x1 x2 x3))
     | _ => none
   | "halve", [x] =>
     match (← parseLimbs? x) with
@@ -95,13 +144,16 @@ def ffRaw (opFull : String) (args : List String) : Option String := do
   | "butterfly", [x, y] =>
     match (← parseLimbs? x), (← parseLimbs? y) with
     | [x0,x1,x2,x3], [y0,y1,y2,y3] =>
-      let (a0,a1,a2,a3,b0,b1,b2,b3) := Gen.FF.butterflyGeneric x0 x1 x2 x3 y0 y1 y2 y3
+      let (a0,a1,a2,a3,b0,b1,b2,b3) :=
+        if asm then Gen.FFAsm.Butterfly x0 x1 x2 x3 y0 y1 y2 y3 else Gen.FF.butterflyGeneric x0 x1 x2 x3 y0 y1 y2 y3
       pure s!"{show4 (a0,a1,a2,a3)} {show4 (b0,b1,b2,b3)}"
     | _, _ => none
   | "mulby3", [x] | "mulby5", [x] | "mulby13", [x] =>
     let c := if op = "mulby3" then 3 else if op = "mulby5" then 5 else 13
     match (← parseLimbs? x) with
-    | [x0,x1,x2,x3] => pure (show4 (Gen.FF.mulByConstant x0 x1 x2 x3 c))
+    | [x0,x1,x2,x3] =>
+      pure (show4 (if asm then (if c = 3 then Gen.FFAsm.MulBy3 x0 x1 x2 x3 else if c = 5 then Gen.FFAsm.MulBy5 x0 x1 x2 x3 else Gen.FFAsm.MulBy13 x0 x1 x2 x3)
+                   else Gen.FF.mulByConstant x0 x1 x2 x3 c))
     | _ => none
   | "inverse", [x] =>
     -- Montgomery inverse: (x·R)⁻¹·R² ; value-level (the binary GCD loop is modelled in I3.Model.FFInverse)
@@ -114,7 +166,8 @@ def ffRaw (opFull : String) (args : List String) : Option String := do
 def ffgRaw (opFull : String) (args : List String) : Option String := do
   let parts := opFull.splitOn "@"
   let op := parts.headD ""
-  let pat := (parts.getD 1 "")
+  let pat := ((parts.getD 1 "").splitOn ":").headD ""
+  let pat := if pat = "api" then "" else pat
   let pat := if pat.startsWith "generic-" then (pat.drop 8).toString else if pat = "generic" then "" else pat
   match op, args with
   | "mul", [x, y] =>
